@@ -53,8 +53,21 @@ def classifier(key):
     return deco
 
 
+# key -> f(payload) -> neutralised payload (or the same payload if the
+# mechanism is absent); used when one witness combines several known findings
+NEUTRALISERS = {}
+
+
+def neutraliser(key):
+    def deco(f):
+        NEUTRALISERS[key] = f
+        return f
+    return deco
+
+
 def classify(prop, payload, fails, ctx, rerun):
-    for key in known_for(prop.id):
+    keys = list(known_for(prop.id))
+    for key in keys:
         f = CLASSIFIERS.get(key)
         if f is None:
             continue
@@ -63,6 +76,23 @@ def classify(prop, payload, fails, ctx, rerun):
                 return key
         except Exception:
             continue
+    # a witness that combines several known mechanisms (e.g. a stripped
+    # environment name AND a bracket name): neutralise all of them together;
+    # it is attributed only if that makes the failure disappear
+    try:
+        q, changed = payload, []
+        for key in keys:
+            n = NEUTRALISERS.get(key)
+            if n is None:
+                continue
+            q2 = n(q)
+            if q2 != q:
+                changed.append(key)
+                q = q2
+        if len(changed) >= 2 and fixed_by(payload, q, fails, rerun):
+            return changed[0]
+    except Exception:
+        pass
     return None
 
 
